@@ -105,7 +105,8 @@ CHECKS = {
                 "half-to-even (edge / constant completion), the majority "
                 "label (smallest on ties) or the first voxel; shape, dtype, "
                 "min/max containment, input immutability and "
-                "NotImplementedError for unsupported factors are checked.",
+                "NotImplementedError for unsupported factors are checked."
+                " Float32 volumes holding infinities of one sign (5 shapes x 6 factor triples x every position) must average to that infinity.",
         "note": "Small-scope: blocks of at most 8 voxels per axis pair; "
                 "float32 alphabets keep partial sums exact in float64. "
                 "uint64 averaging above 2^53 is a recorded known finding.",
@@ -188,7 +189,8 @@ CHECKS = {
                 "requested shape/dtype or raise InvalidFormatError; "
                 "still-spec-valid compressed_segmentation buffers must "
                 "decode to the specified labels; a CPU-time watchdog "
-                "reports hangs.",
+                "reports hangs."
+                " Header-word edits include every single-bit flip.",
         "note": "Chunks of at most 24 voxels; JPEG validity after mutation "
                 "is not judged (only shape/dtype or the documented error).",
     },
@@ -239,7 +241,8 @@ CHECKS = {
                 "family changes the MIME type of a name between stores. "
                 "Confinement: 14 spellings x 4 operations x 3 accessors "
                 "with a sentinel sibling directory."
-                " Outside names include ones below directories that do not exist yet; nothing outside the dataset directory may be created.",
+                " Outside names include ones below directories that do not exist yet; nothing outside the dataset directory may be created."
+                " Names ending in .gz (alone in their dataset) and a sibling directory sharing the dataset directory's name as a prefix are included.",
         "note": "Operations are sequential; contents are 3 byte strings; "
                 "one writer configuration per history.",
     },
@@ -314,7 +317,8 @@ CHECKS = {
                 "compared with the grid predicate and every rejected "
                 "near-valid tuple is offered to write_chunk (must raise, "
                 "tree unchanged)."
-                " A reopen family rewrites a chunk through a handle opened on the same directory with the other compression setting and reads it through both handles and a fresh one.",
+                " A reopen family rewrites a chunk through a handle opened on the same directory with the other compression setting and reads it through both handles and a fresh one."
+                " Arrays returned by earlier reads are compared again after the last read through the same handle.",
         "note": "Volumes of 5x4x3 voxels; JPEG bound depends on the "
                 "installed libjpeg (stated in ASSUMPTIONS).",
     },
@@ -407,7 +411,8 @@ CHECKS = {
                 "(DataAccessError for plain datasets), never empty, partial "
                 "or other bytes, never False from file_exists on a 5xx. "
                 "Replayed prefixes must match the recording (hard error "
-                "otherwise).",
+                "otherwise)."
+                " Two plain datasets have chunk contents that start with the gzip / zlib magic numbers or are complete compressed streams.",
         "note": "The socket, TLS, proxies and redirects are below the seam; "
                 "undetectable lies of a server (a different complete file) "
                 "are not in the menu.",
